@@ -70,6 +70,13 @@ def run(ctx):
             p = os.path.join(tmp, 'w-%s-beyond.wowsreplay' % v); battle.write_replay(p, 'wowsreplay', {'clientVersionFromXml': vs}, b.stream()); pool.append(p)
         for game, v in (('wot', '1_8_0'), ('wot', '1_10_0'), ('wowp', '2_1_17'), ('wowp', '1_7_5')):
             p = os.path.join(tmp, '%s-%s.%s' % (game, v, {'wot': 'wotreplay', 'wowp': 'wowpreplay'}[game])); battle.write_simple(p, game, v, random.Random(rng.randrange(10 ** 9))); pool.append(p)
+        # versions that are NOT bundled, for every game, near bundled ones (a patch release, a release between two bundled ones): refused, and
+        # refused in the same way however often and after whatever they are parsed
+        for game, base, label in (('wot', '1_10_0', '1.10.1'), ('wot', '1_8_0', '1.9.1'), ('wowp', '2_1_17', '2.1.18'), ('wowp', '1_7_5', '1.7.6')):
+            b, vs = battle.build_simple(game, base, random.Random(rng.randrange(10 ** 9)))
+            ext = {'wot': 'wotreplay', 'wowp': 'wowpreplay'}[game]; key = 'clientVersion' if game == 'wowp' else 'clientVersionFromXml'
+            vs2 = vs.replace(base.replace('_', '.'), label)
+            p = os.path.join(tmp, '%s-unbundled-%s.%s' % (game, label, ext)); battle.write_replay(p, ext, {key: vs2}, b.stream()); pool += [p, p]
         pool += [f for f in recordings.list_recordings() if os.path.getsize(f) < (800000 if q else 10 ** 9)][: (3 if q else 100)]
         newest = sorted((f for f in recordings.list_recordings() if f.endswith('.wowsreplay')), key=lambda f: [int(x) if x.isdigit() else 0 for x in os.path.basename(os.path.dirname(f)).split('_')])[-1]
         if newest not in pool: pool.append(newest)
